@@ -33,6 +33,9 @@ def run(db, rep, tier):
                            "packets and incomplete streams are left alone", 7)
     rep.rule("R3-key", "stream key = (identification, source, destination)", 1)
     rep.rule("R5-fragment-length", "every IPv4 payload layer is built from the length clamped to the header's total length", 3)
+    rep.rule("R6-always-a-payload", "a complete, contiguous fragment set always yields a payload layer: whatever the protocol number, "
+                                    "allocate_pdu() falls back to RawPDU instead of returning null", 1)
+    r6(db, rep)
     rep.rule("R4-accounting", "fragment insertion, byte accounting, ordered search and duplicate test go together", 4)
     proc = fn1(db, REASM + "::process")
     r1(db, rep, proc)
@@ -323,3 +326,83 @@ def r4(db, rep):
             rep.ok("R4-accounting", "add_fragment:last-fragment", facts.loc(af, last[0]), "total size and end flag recorded together when MF is clear")
             return
     rep.violation("R4-accounting", "add_fragment:last-fragment", facts.loc(af), "total size / end-seen flag are not recorded together under the MF-clear test")
+
+
+def r6(db, rep):
+    from rules.c12 import path_avoiding
+    af = fn1(db, STREAM + "::allocate_pdu")
+    g = cfg.FnCFG(af)
+    idx, par = facts.index_fn(af)
+
+    def in_loop(n):
+        p = par.get(n["id"])
+        while p is not None:
+            if p["k"] in ("ForStmt", "WhileStmt", "DoStmt", "CXXForRangeStmt"):
+                return True
+            p = par.get(p["id"])
+        return False
+
+    def nullable(e):
+        """None = certainly non-null, else a reason"""
+        e0 = facts.strip_all(e)
+        if e0["k"] == "CXXNewExpr":
+            return None
+        if e0["k"] == "CallExpr" and e0.get("cname") == "pdu_from_flag":
+            args = e0["c"][1:]
+            if len(args) >= 4:
+                v = facts.cval(args[3])
+                if v is None and args[3]["k"] == "CXXDefaultArgExpr":
+                    v = 1
+                if v:
+                    return None
+                return "pdu_from_flag(..., rawpdu_on_no_match = false) returns null for a protocol libtins has no class for"
+            return None
+        if e0["k"] == "ConditionalOperator":
+            return nullable(e0["c"][1]) or nullable(e0["c"][2])
+        if facts.cval(e) == 0:
+            return "a null pointer constant"
+        return "`%s` may be null" % facts.expr_str(e0)[:60]
+    n = 0
+    for r in facts.fn_nodes(af):
+        if r["k"] != "ReturnStmt" or not r.get("c") or in_loop(r):
+            continue
+        n += 1
+        key = "allocate_pdu:return#%d" % n
+        e0 = facts.strip_all(r["c"][0])
+        why = None
+        if e0["k"] == "DeclRefExpr" and e0.get("var") and not e0.get("parm"):
+            v = e0["var"]
+            defs = []
+            for x in facts.fn_nodes(af):
+                if x["k"] == "VarDecl" and x.get("var") == v and x.get("c"):
+                    defs.append((x, x["c"][0]))
+                if x["k"] == "BinaryOperator" and x.get("op") == "=" and facts.strip_all(x["c"][0]).get("var") == v:
+                    defs.append((x, x["c"][1]))
+            fix = []
+            for x in facts.fn_nodes(af):
+                if x["k"] == "IfStmt":
+                    real = [y for y in x["c"] if y is not None]
+                    c = strip(real[0])
+                    neg = c["k"] == "UnaryOperator" and c.get("op") == "!" and facts.strip_all(c["c"][0]).get("var") == v
+                    eq0 = c["k"] == "BinaryOperator" and c.get("op") == "==" and any(
+                        facts.strip_all(c["c"][i]).get("var") == v and facts.cval(c["c"][1 - i]) == 0 for i in (0, 1))
+                    if (neg or eq0) and any(y["k"] == "BinaryOperator" and y.get("op") == "=" and facts.strip_all(y["c"][0]).get("var") == v and
+                                            nullable(y["c"][1]) is None for y in facts.walk(real[1])):
+                        fix.append(g.pos(real[0]))
+            fix = [q for q in fix if q]
+            for d, val in defs:
+                nl = nullable(val)
+                if nl and par.get(d["id"]) is not None:
+                    # inside a fix-up branch itself?  then it is the non-null store
+                    if path_avoiding(g, g.pos(d), g.pos(r), fix):
+                        why = nl
+        else:
+            why = nullable(r["c"][0])
+        if why:
+            rep.violation("R6-always-a-payload", key, facts.loc(af, r),
+                          "after the contiguity check allocate_pdu() can return null (%s): the completed datagram is reported FRAGMENTED and "
+                          "dropped instead of being delivered with a RawPDU payload" % why)
+        else:
+            rep.ok("R6-always-a-payload", key, facts.loc(af, r), "non-null on every path (RawPDU fallback)")
+    if n < 1:
+        rep.analysis_broken("allocate_pdu: no return after the contiguity loop found")
